@@ -21,7 +21,7 @@ Fixpoint pdigits (fuel : nat) (n : N) (acc : string) : string :=
   | S f => let d := String (ascii_of_nat (48 + N.to_nat (N.modulo n 10))) acc in
            if N.eqb (N.div n 10) 0 then d else pdigits f (N.div n 10) d
   end.
-Definition show_N (n : N) : string := pdigits 400 n "".
+Definition show_N (n : N) : string := pdigits 2000 n "".
 Definition show_Z (z : Z) : string :=
   match z with Z0 => "0" | Zpos p => show_N (Npos p) | Zneg p => "-" ++ show_N (Npos p) end.
 
@@ -42,4 +42,4 @@ Fixpoint mismatches {A : Type} (run : A -> string) (i : nat) (l : list (A * stri
   end.
 
 Definition show_bad (l : list (nat * string)) : string :=
-  join "@@@" (map (fun p => show_nat (fst p) ++ ":::" ++ snd p) l).
+  join "|~|" (map (fun p => show_nat (fst p) ++ "~:~" ++ snd p) l).
